@@ -25,6 +25,9 @@ type c06Case struct {
 	// Drip: connection 0 sends request k+1 only after handler k has ENTERED (one
 	// write per request) instead of one write for the whole pipeline.
 	Drip bool `json:"drip,omitempty"`
+	// StartTLS: connection 0 is upgraded with StartTLS first (request number 1 of
+	// that connection); its pipeline then continues the numbering with 2, 3, ...
+	StartTLS bool `json:"starttls,omitempty"`
 }
 
 const c06Stride = 1000000
@@ -72,6 +75,7 @@ func genC06(t *rapid.T) c06Case {
 		mode = "all-wait-last"
 	}
 	c.Drip = rapid.IntRange(0, 3).Draw(t, "drip") == 0
+	c.StartTLS = rapid.IntRange(0, 4).Draw(t, "starttls") == 0
 	for ci := 0; ci < nc; ci++ {
 		n := sizes[ci]
 		perm := rapid.Permutation(seqInts(n)).Draw(t, "perm")
@@ -191,6 +195,15 @@ func c06Exec(c c06Case, st *lab.Stats) *lab.Fail {
 	}
 	mux, _ := gldap.NewMux()
 	_ = mux.DefaultRoute(h)
+	var pki *lab.PKI
+	if c.StartTLS {
+		var perr error
+		if pki, _, perr = lab.SharedPKI(); perr != nil {
+			st.Inconclusive(perr.Error())
+			return nil
+		}
+		_ = mux.ExtendedOperation(lab.StartTLSHandler(pki.ServerTLS()), gldap.ExtendedOperationStartTLS)
+	}
 	srv, err := lab.StartServer(mux, lab.ServerOpts{})
 	if err != nil {
 		st.Inconclusive(err.Error())
@@ -206,10 +219,19 @@ func c06Exec(c c06Case, st *lab.Stats) *lab.Fail {
 		_ = srv.Stop(15 * time.Second)
 	}()
 	for ci, reqs := range c.Conns {
-		cl, err := lab.Dial(srv.Addr)
+		var cl *lab.Client
+		var err error
+		if c.StartTLS && ci == 0 {
+			cl, err = lab.Connect(srv.Addr, "starttls", pki.ClientTLS(false))
+		} else {
+			cl, err = lab.Dial(srv.Addr)
+		}
 		if err != nil {
-			st.Inconclusive(err.Error())
 			close(release)
+			if c.StartTLS && ci == 0 {
+				return lab.Failf("connect:starttls", "cannot upgrade a fresh connection with StartTLS: %v", err)
+			}
+			st.Inconclusive(err.Error())
 			return nil
 		}
 		clients[ci] = cl
@@ -282,8 +304,12 @@ func c06Exec(c c06Case, st *lab.Stats) *lab.Fail {
 	connIDs := map[int]int{}
 	for ci := range obs {
 		for k, o := range obs[ci] {
-			if o.reqID != k+1 {
-				return lab.Failf("request-id-order", "connection %d: the request sent %d-th carries Request.ID %d (message ID %d)", ci, k+1, o.reqID, c.Conns[ci][k].MsgID)
+			want := k + 1
+			if c.StartTLS && ci == 0 {
+				want++ // the StartTLS request was number 1
+			}
+			if o.reqID != want {
+				return lab.Failf("request-id-order", "connection %d (upgraded by StartTLS first: %v): the request sent %d-th carries Request.ID %d (message ID %d)", ci, c.StartTLS && ci == 0, want, o.reqID, c.Conns[ci][k].MsgID)
 			}
 			if o.connID != obs[ci][0].connID {
 				return lab.Failf("connection-id-unstable", "connection %d: requests report ConnectionID %d and %d", ci, obs[ci][0].connID, o.connID)
@@ -300,7 +326,7 @@ func c06Exec(c c06Case, st *lab.Stats) *lab.Fail {
 func TestC06(t *testing.T) {
 	lab.Prop[c06Case]{
 		ID: "C06", Part: "pipelines",
-		Rule: "rapid: 1..8 simultaneous connections, each pipelining 1..24 (occasionally 64..256; 'deep-chain' cases 100..256) requests of mixed operations with shuffled message IDs, in one write or drip-fed one write per request after the previous handler has entered; a generated dependency graph makes handlers block until a LATER request of the same connection (random, the fully reversed chain, or all waiting for the last one - up to 255 handlers of one connection blocked at once) or any request of another connection has ENTERED its handler; oracle = every handler enters (a correct dispatcher always completes, a serial one deadlocks: verdict only with a stable goroutine census after 15 s), Request.ID of the k-th request sent is k, one ConnectionID per connection, distinct across connections; non-trivial = >= 2 requests and >= 1 blocking edge; distinct by hash of the case",
+		Rule: "rapid: 1..8 simultaneous connections, each pipelining 1..24 (occasionally 64..256; 'deep-chain' cases 100..256) requests of mixed operations with shuffled message IDs, in one write or drip-fed one write per request after the previous handler has entered; a generated dependency graph makes handlers block until a LATER request of the same connection (random, the fully reversed chain, or all waiting for the last one - up to 255 handlers of one connection blocked at once) or any request of another connection has ENTERED its handler; connection 0 may have been upgraded by StartTLS before its pipeline (the numbering then continues with 2); oracle = every handler enters (a correct dispatcher always completes, a serial one deadlocks: verdict only with a stable goroutine census after 15 s), Request.ID of the k-th request sent is k, one ConnectionID per connection, distinct across connections; non-trivial = >= 2 requests and >= 1 blocking edge; distinct by hash of the case",
 		Gen:  genC06, Exec: c06Exec,
 	}.Run(t)
 }
